@@ -220,6 +220,9 @@ SHADOW = [
     ('rule-level variable shadows a file-level one', 'let v = big\nrule r {\n  let v = small\n  %v <= 50\n}\nrule s {\n  %v >= 100\n}\n', 'rule r {\n  small <= 50\n}\nrule s {\n  big >= 100\n}\n'),
     ('block-level variable shadows a rule-level one, the outer one is back after the block', 'rule r {\n  let v = big\n  o {\n    let v = a\n    %v <= 50\n  }\n  %v >= 100\n}\n', 'rule r {\n  o {\n    a <= 50\n  }\n  big >= 100\n}\n'),
     ('when-block variable shadows a file-level one', 'let v = big\nrule r {\n  when small exists {\n    let v = small\n    %v <= 50\n  }\n  %v >= 100\n}\n', 'rule r {\n  when small exists {\n    small <= 50\n  }\n  big >= 100\n}\n'),
+    ('the condition of a when block is written outside the block: a variable the block defines does not reach it (file level)', 'let v = big\nrule r {\n  when %v >= 100 {\n    let v = small\n    %v <= 50\n  }\n}\n', 'rule r {\n  when big >= 100 {\n    small <= 50\n  }\n}\n'),
+    ('the condition of a when block is written outside the block: a variable the block defines does not reach it (rule level)', 'rule r {\n  let v = big\n  when %v >= 100 {\n    let v = small\n    %v <= 50\n  }\n  %v >= 100\n}\n', 'rule r {\n  when big >= 100 {\n    small <= 50\n  }\n  big >= 100\n}\n'),
+    ('the condition of a when block inside a value block sees the value block\'s variable, not the when block\'s', 'rule r {\n  o {\n    let v = b\n    when %v >= 100 {\n      let v = a\n      %v <= 50\n    }\n  }\n}\n', 'rule r {\n  o {\n    when b >= 100 {\n      a <= 50\n    }\n  }\n}\n'),
     ('a file-level variable is a query on the root also inside a block', 'let v = small\nrule r {\n  o {\n    %v <= 50\n    a <= 50\n  }\n}\n', 'rule r {\n  small <= 50\n  o {\n    a <= 50\n  }\n}\n'),
     ('a rule-level variable keeps its value inside a filter', 'rule r {\n  let v = small\n  l[ this <= %v ] !empty\n}\n', 'rule r {\n  l[ this <= 10 ] !empty\n}\n'),
     ('a call is its body written at the call site: other names are looked up from there', 'let v = small\nrule f(p) {\n  %v <= 50\n  %p >= 100\n}\nrule r {\n  let v = big\n  f(big)\n}\n', 'rule r {\n  let v = big\n  %v <= 50\n  big >= 100\n}\n'),
@@ -374,8 +377,15 @@ def run_calls(ctx):
         a, b = CALL_ARGS[ai], CALL_ARGS[bi]
         for site, call_t, let_t in (
                 ('line', 'rule f(p, q) {\n  %s\n}\nrule r {\n  f(%s, %s)\n}\n', 'rule r {\n  let p = %s\n  let q = %s\n  %s\n}\n'),
-                ('or', 'rule f(p, q) {\n  %s\n}\nrule r {\n  Settings.Level == 0 or\n  f(%s, %s)\n}\n', None)):
-            call = call_t % (CALL_BODIES[body], a, b)
+                ('or', 'rule f(p, q) {\n  %s\n}\nrule r {\n  Settings.Level == 0 or\n  f(%s, %s)\n}\n', None),
+                # the i-th argument goes to the i-th DECLARED name, whatever the names are: declared (q, p), called (b, a)
+                ('declared-order', 'rule f(q, p) {\n  %s\n}\nrule r {\n  f(%s, %s)\n}\n', 'rule r {\n  let p = %s\n  let q = %s\n  %s\n}\n')):
+            if site == 'declared-order':
+                if a == b:
+                    continue
+                call = call_t % (CALL_BODIES[body], b, a)
+            else:
+                call = call_t % (CALL_BODIES[body], a, b)
             if let_t is not None:
                 ref = let_t % (a, b, CALL_BODIES[body])
             else:
